@@ -154,6 +154,11 @@ func initProperties() {
 				use("ROLEMIX", "key/value type dispatch not mixed", nil),
 				use("ADVANCEPOS", "skip helpers advance", nil),
 				use("VARINTNARROW", "varint lengths bounded before narrowing", nil),
+				use("CURSORBOUND", "cursor never jumps past the buffer; no 32-bit byte-count overflow", nil),
+				use("CONSTAFFINITY", "number formatter head-room (native writer must not overrun)", nil),
+				use("HDRUSED", "container header types checked", nil),
+				use("NATIVEQUOTE", "string escaper retry contract", nil),
+				use("NATIVERET", "native status / buffer window", nil),
 			)},
 		{ID: "C07", Title: "Protobuf reads return exactly what the reference decoder sees",
 			Decides: "unknown field numbers in the message cannot crash reads (NILLOOKUP over proto/generic), kind/wire-type/packedness tables match the protobuf spec (KINDTABLE — they drive every skip), errors propagate (DROPERR, ERRSWALLOW), search loops consume (LOOPPROGRESS), unknown fields are skipped (UNKNOWNSKIP).",
@@ -269,6 +274,8 @@ func initProperties() {
 				use("BUILDPAIR", "maps built", inPkgs("thrift", "internal/util")),
 				use("SEQAGREE", "set/get agree", nil),
 				use("DESCIMMUT", "descriptors immutable", nil),
+				use("SCOPEFOLLOW", "names resolved in the file they were found in", nil),
+				use("DROPERR", "parse errors propagate", inPkgs("thrift", "internal/util", "internal/caching")),
 			)},
 		{ID: "C15", Title: "Protobuf descriptors mirror the schema",
 			Decides: "the compiling cache is keyed injectively (CACHEKEY: message types sharing a simple name get distinct descriptors), kind/wire/packedness tables match the spec (KINDTABLE), name maps are built (BUILDPAIR).",
@@ -290,6 +297,8 @@ func initProperties() {
 				use("DESCIMMUT", "requires bitmap copied", nil),
 				use("REQAFFINITY", "requiredness <-> option", nil),
 				use("RAWCOPYGUARD", "raw-copy shortcut guarded by descriptor identity", nil),
+				use("SCOPEFOLLOW", "IDL defaults resolved in the file they were found in", nil),
+				use("POOLRESET", "pooled state-machine fully reset", nil),
 			)},
 		{ID: "C17", Title: "HTTP mapping takes each annotated field from its declared source",
 			Decides: "each annotation key maps to the type whose Request/Response calls the getter/setter of its declared source (ANNOTABLE), the first listed source with a value wins (FIRSTWINS), HTTPConv really enables mapping before flags are computed (FLAGSYNC), fallback options reach the right parameters (ARGSWAP), mapping errors are not dropped (DROPERR).",
@@ -328,6 +337,7 @@ func initProperties() {
 				use("KINDEXH", "type switches", thriftPkg),
 				use("ALLOCBOUND", "counts bounded", thriftPkg),
 				use("PANICARG", "no size panic", thriftPkg),
+				use("CURSORBOUND", "cursor never jumps past the buffer", thriftPkg),
 				use("DROPERR", "errors propagate", thriftPkg),
 				use("NEGPOLARITY", "unknown handling", thriftPkg),
 				use("UNKNOWNSKIP", "unknown skipped", thriftPkg),
